@@ -390,6 +390,23 @@ def signed_cases(d):
             "sel": [2 * d.randint(0, 1 << 15)] + [d.randint(0, 1 << 16) for _ in range(7)], "pseed": d.seed()}
 
 
+@hyp.composite
+def ordered_cases(d):
+    """three 2-bit fields in one rand set, an ordering directive over two of them (or a chain over all three), loose
+    constraints: every feasible value of EVERY field - also of the one no directive mentions - has to come out"""
+    fs = [{"name": "f%d" % i, "kind": "bit", "w": 2, "signed": False, "rand": True, "init": 0} for i in range(3)]
+    x, y, z = d.sample(["f0", "f1", "f2"], 3)
+    stmts = [["expr", ["bin", d.choice(["<", "<=", "!="]), ["bin", "+", ["bin", "+", ["f", x], ["f", y]], ["f", z]], ["lit", d.randint(5, 9)]]]]
+    if d.chance(40):
+        stmts.append(["expr", ["bin", d.choice(["!=", "<=", ">="]), ["f", z], ["f", d.choice([x, y])]]])
+    stmts.append(["order", [x], [y]])
+    if d.chance(25):
+        stmts.append(["order", [y], [z]])
+    prog = {"enums": {}, "classes": [{"name": "T", "fields": fs, "blocks": [{"name": "c0", "stmts": stmts}]}]}
+    return {"mode": "enum", "prog": prog, "inline": None, "marginal": True, "calls": [{"kind": "randomize", "seed": d.seed()}],
+            "sel": [1] + [d.randint(0, 1 << 16) for _ in range(7)], "pseed": d.seed()}
+
+
 def V(kind, detail, case, extra=None):
     v = {"property": PROPERTY, "kind": kind, "detail": detail, "case": case, "text": E.text_of(case)}
     if extra:
@@ -518,6 +535,40 @@ def run_case(case):
             if missing:
                 return [V("solution_never_produced", "coupon check: a member of the solution set never appeared [%s]" % shape_of(case), case,
                           "%d seeded draws (R=%d, |S|=%d): never produced %s of fields %s" % (N, R, len(sols), missing[:4], names))], info
+    elif case.get("marginal") and not has_soft and sols:
+        # per-field version for solution sets too large to collect: every feasible VALUE of every random field must appear.
+        # A value v of field f is produced at least whenever the patterns drawn for all fields form a solution with f = v:
+        # probability >= 1/R per draw, R = product of the sizes of the ranges the fields are steered over
+        R = 1
+        for f in rf:
+            rg = cap["ranges"].get(f["name"])
+            R *= len(sem.domain(f)) if not rg else max(1, len(rg) * max(abs(b - a) + 1 for a, b in rg))
+        if R <= 64:
+            import math
+            nvals = sum(len(set(s_[j] for s_ in sols)) for j in range(len(rf)))
+            N = int(math.ceil(R * (math.log(nvals) + 28)))
+            seen = [set() for _ in rf]
+            want = [set(s_[j] for s_ in sols) for j in range(len(rf))]
+            obj.set_randstate(flat.mk_randstate(case["pseed"]))
+            for _ in range(N):
+                try:
+                    obj.randomize()
+                except Exception:
+                    reset_library()
+                    return [], info
+                env = flat.read_state(ns, obj, fields)
+                for j, nm in enumerate(names):
+                    seen[j].add(env[nm])
+                if all(w_ <= s_ for w_, s_ in zip(want, seen)):
+                    break
+            info["coupon"] = 1
+            info["marginal_coupon"] = 1
+            for j, nm in enumerate(names):
+                miss = sorted(want[j] - seen[j])
+                if miss:
+                    return [V("solution_never_produced", "coupon check: a feasible value of a field never appeared [%s]" % shape_of(case), case,
+                              "%d seeded draws (R=%d): field %s never took %s although solutions with these values exist; seen %s"
+                              % (N, R, nm, miss, sorted(seen[j])))], info
     return [], info
 
 
@@ -543,11 +594,12 @@ def body(case, acc):
 def shards(tier):
     per = 220 if tier == "quick" else 6000
     return [{"i": i, "n": per} for i in range(12)] + [{"kind": "clean", "i": i, "n": per} for i in range(4)] + \
-        [{"kind": "signed", "i": i, "n": 100 if tier == "quick" else 3000} for i in range(2)]
+        [{"kind": "signed", "i": i, "n": 100 if tier == "quick" else 3000} for i in range(2)] + \
+        [{"kind": "ordered", "i": i, "n": 6 if tier == "quick" else 150} for i in range(2)]
 
 
 def run_shard(spec, seed, tier, acc):
-    strat = {"clean": clean_cases, "signed": signed_cases}.get(spec.get("kind"), cases)()
+    strat = {"clean": clean_cases, "signed": signed_cases, "ordered": ordered_cases}.get(spec.get("kind"), cases)()
     hyp.drive(strat, body, seed, spec["n"], acc)
 
 
